@@ -79,3 +79,6 @@ package httpio
 //@   at call (*net/url.URL).String: assert posts-to-this-calls-url: $0 == u [C20]
 //@   at call net/http.Post: assert uploads-the-callers-reader: $0 == ustr && $2 == r [C20]
 //@   ensures one-upload: calls(Post) == 1 [C20]
+//@   ghost postErr : U = nil
+//@   at ret net/http.Post: set postErr = $result1
+//@   at call (io.ReadCloser).Close: assert response-touched-only-after-a-successful-upload: postErr == nil [C20]
